@@ -110,3 +110,13 @@ pub fn run(input: &mut dyn BufRead, out: &mut dyn Write, _args: &[String]) -> R 
     }
     Ok(())
 }
+
+pub fn tcp_filter(cfg: &Value) -> huginn_net_tcp::FilterConfig {
+    build_cfg!(huginn_net_tcp, cfg)
+}
+pub fn http_filter(cfg: &Value) -> huginn_net_http::FilterConfig {
+    build_cfg!(huginn_net_http, cfg)
+}
+pub fn tls_filter(cfg: &Value) -> huginn_net_tls::FilterConfig {
+    build_cfg!(huginn_net_tls, cfg)
+}
